@@ -6,8 +6,9 @@ Evaluation of arithmetic RIDDLE expressions into linear expressions
 * `a − b − …`   `l += first; l -= each other`
 * `a * b * …`   the FIRST operand that is not a constant (its bounds differ) is kept, every other operand must be a
                 constant and multiplies it (in order); if all are constants the first is multiplied by the others;
-                two non-constant operands are a failed `assert("non-linear expression..")`
-* `a / b / …`   every operand but the first must be a constant; the first is divided by their product
+                two non-constant operands are reported as a non-linear expression
+* `a / b / …`   every operand but the first must be a constant (else: error "non-linear") different from zero
+                (else: error "division by zero"); the first is divided by their product
 * `−a`, `+a`, literals, identifiers
 
 `constOf l` says whether the network already decides `l` (`lb(l) = ub(l)`) and to which value; with fresh, unbounded
@@ -25,7 +26,7 @@ abbrev ConstOf := Lin → Option R
 def constFree : ConstOf := fun l => if l.vars.isEmpty then some l.known else none
 
 inductive Err where
-  | unknownId | nonLinear | notArith | arity
+  | unknownId | nonLinear | notArith | arity | divZero
 deriving Repr, DecidableEq
 
 def mulAll (c : ConstOf) (ls : List Lin) : Except Err Lin :=
@@ -45,7 +46,7 @@ def mulAll (c : ConstOf) (ls : List Lin) : Except Err Lin :=
         | some k => pure (Lin.mulAssignR acc k)
         | none => .error .nonLinear) first
 
-def divAll (c : ConstOf) (ls : List Lin) : Except Err Lin :=
+def divAllCore (c : ConstOf) (ls : List Lin) : Except Err Lin :=
   match ls with
   | first :: d :: rest =>
     match c d with
@@ -57,6 +58,19 @@ def divAll (c : ConstOf) (ls : List Lin) : Except Err Lin :=
       | .error e => .error e
       | .ok k => .ok (Lin.divR first k)
   | _ => .error .arity
+
+/-- the checks `division_expression::evaluate` makes on the divisors, in order, before calling `core::div`:
+    a divisor that is not a constant is a non-linear expression, a zero divisor a division by zero -/
+def divCheck (c : ConstOf) : List Lin → Option Err
+  | [] => none
+  | l :: ls => match c l with
+    | none => some .nonLinear
+    | some k => if k.isZero then some .divZero else divCheck c ls
+
+def divAll (c : ConstOf) (ls : List Lin) : Except Err Lin :=
+  match divCheck c ls.tail with
+  | some e => .error e
+  | none => divAllCore c ls
 
 mutual
 /-- `expression::evaluate` for arithmetic expressions -/
